@@ -61,16 +61,22 @@ debug = 0
 """
 
 
-def build2():
-    want = CARGO2_TOML % REPO
-    ct = os.path.join(RAC2, "Cargo.toml")
+RAC3 = os.path.join(ROOT, "rac3")
+CARGO3_TOML = CARGO2_TOML.replace('name = "rac2"', 'name = "rac3"').replace('futures = "0.3.0"', 'fut = { package = "futures", version = "0.3.0" }')
+
+
+def build2(which=2):
+    global RAC2
+    d = RAC2 if which == 2 else RAC3
+    want = (CARGO2_TOML if which == 2 else CARGO3_TOML) % REPO
+    ct = os.path.join(d, "Cargo.toml")
     if not os.path.exists(ct) or open(ct).read() != want:
         open(ct, "w").write(want)
-    lock = os.path.join(RAC2, "Cargo.lock")
+    lock = os.path.join(d, "Cargo.lock")
     if not os.path.exists(lock):
         import shutil
         shutil.copy(os.path.join(REPO, "Cargo.lock"), lock)
-    return subprocess.run(["cargo", "build", "--offline"], cwd=RAC2, env=ENV, capture_output=True, text=True)
+    return subprocess.run(["cargo", "build", "--offline"], cwd=d, env=ENV, capture_output=True, text=True)
 
 
 def run(pid, fams, tier, rdir, seed):
@@ -83,7 +89,21 @@ def run(pid, fams, tier, rdir, seed):
         return res
     exe = os.path.join(RAC, "target", "debug", "rac")
     for fam in fams:
-        if fam == "spawn_agree":
+        if fam == "futures_path":
+            b3 = build2(3)
+            if b3.returncode != 0:
+                # the only way these programs fail to build is an expansion that does not take a futures item from the given path
+                errs = [l for l in b3.stderr.split("\n") if l.startswith("error")]
+                path = os.path.join(rdir, "R-futures_path-build.txt")
+                with open(path, "w") as fh:
+                    fh.write("property: %s\nfailed obligation: programs with futures_crate_path(::fut) must compile in a crate where `::futures` does not exist\n\n%s\n" % (pid, b3.stderr[-4000:]))
+                    fh.write("\nreplay: cd %s && cargo build --offline\n" % RAC3)
+                res["cases"] += 1
+                res["violations"].append({"engine": "R", "obligation": "futures_path(build)", "key": "R:futures_path:build", "replay": path, "found_input": True,
+                                          "summary": "; ".join(errs[:2])[:200]})
+                continue
+            p = subprocess.run([os.path.join(RAC3, "target", "debug", "rac3")], capture_output=True, text=True, timeout=600)
+        elif fam == "spawn_agree":
             b2 = build2()
             if b2.returncode != 0:
                 # the programs are well-typed under the plain macros: a compile error in the spawn expansion is reported
@@ -99,7 +119,8 @@ def run(pid, fams, tier, rdir, seed):
         d = json.loads(line)
         res["cases"] += d["cases"]
         res["passed"] += d["passed"]
-        res["coverage"]["families"][fam] = {"cases": d["cases"], "passed": d["passed"], "exhaustive": d["exhaustive"], "notes": d["notes"]}
+        res["nontrivial"] = res.get("nontrivial", 0) + d.get("nontrivial", d["cases"])
+        res["coverage"]["families"][fam] = {"cases": d["cases"], "passed": d["passed"], "nontrivial": d.get("nontrivial", d["cases"]), "exhaustive": d["exhaustive"], "notes": d["notes"]}
         res["coverage"]["samples"] += ["R:%s: %s" % (fam, s) for s in d["samples"][:3]]
         for k, f in enumerate(d["failures"][:8]):
             path = os.path.join(rdir, "R-%s-%d.txt" % (fam, k))
